@@ -9,7 +9,8 @@
 (*   units  sequence over the instrument's fluorescence channels:                 *)
 (*          "empty" | "channel" | "rfi" | "au" | "mef" | "unknown"                *)
 (*   beads  state of the referenced beads row for a MEF request:                  *)
-(*          "ok" | "failed" | "nocurve" | "other-inst" | "other-amp" | "other-volt" *)
+(*          "ok" | "failed" | "nomef" (beads row without MEF values) | "nocurve" |   *)
+(*          "other-inst" | "other-amp" | "other-volt"                              *)
 (* The row machine also emits `calls`: the sequence of library calls the row      *)
 (* performs - the "documented steps applied by hand" of C10.                      *)
 EXTENDS Integers, Sequences, FiniteSets
@@ -29,11 +30,11 @@ Call(f, a) == <<f, a>>
 UnitsFault(r, c) ==
   CASE r.units[c] = "unknown" -> "units-not-recognized"
     [] r.units[c] = "mef" /\ c = 3 ->       \* calibration missing for the requested channel
-         (CASE r.beads = "failed"     -> "mef-function-not-available"
+         (CASE r.beads \in {"failed", "nomef"} -> "mef-function-not-available"
             [] r.beads = "other-inst" -> "other-instrument"
             [] OTHER -> "no-standard-curve")
     [] r.units[c] = "mef" ->
-         (CASE r.beads = "failed"     -> "mef-function-not-available"
+         (CASE r.beads \in {"failed", "nomef"} -> "mef-function-not-available"
             [] r.beads = "other-inst" -> "other-instrument"
             [] r.beads = "other-amp"  -> "other-amplification"
             [] r.beads = "other-volt" -> "other-voltage"
